@@ -4,7 +4,6 @@ import (
 	"fmt"
 	"math"
 	"math/big"
-	"os"
 
 	"verif/harness/eng"
 	"verif/harness/gen"
@@ -189,10 +188,10 @@ func cases(tier string, seed int64) []eng.Case {
 func init() {
 	eng.Register(&eng.Monitor{
 		ID: "C06", Level: "exploration",
-		Rule: "cases = (kind, parameter set); parameter sets vary ring type (standard / conjugate-invariant), logN 4..11, default scale 20..55 bits (one prime per rescaling) and 65..100 bits (two primes per rescaling, arbitrary-precision encoder), chain depth, primes at 0.65..1.0 x the scale, #P, secret weight. kind 'prog' = random straight-line program (14-22 evaluator calls chosen adaptively so that the message always fits the modulus) over a pool of ciphertexts/plaintexts with equal and unequal scales, levels, degrees and slot counts; the other kinds enumerate one API family: scalar = {Add,Sub,Mul,MulThenAdd} x 9 scalar Go types x value classes x receivers; vector = same x 4 vector types x lengths x sparse packings; scale = Rescale/RescaleTo (threshold boundaries)/SetScale (ratios)/ScaleUp/DropLevel at every level; addsub = Add/Sub with scale ratios {1, integer, prime, non-integer, 1+eps} x operand order x receiver aliasing x degree; mta = MulThenAdd/MulRelinThenAdd accumulator scale/level/degree relations. EVERY evaluator call is judged (scale exact to 2^-100, level, degree, dimensions, decrypted value within the one-step worst-case budget). distinct key = (op, operand kind and value class, receiver mode, scale relation, level relation, degrees, slot class, family, scale decade) and, for programs, the normalised program text; non-trivial = anything but a standard-ring PREC64 ciphertext-ciphertext call with equal scales and levels into a fresh full-slot receiver (i.e. other operand kind, unequal scale or level, aliased or dirty receiver, degree 2, sparse packing, conjugate-invariant ring, PREC128, error outcome) or a program of multiplicative depth >= 2.",
+		Rule:  "cases = (kind, parameter set); parameter sets vary ring type (standard / conjugate-invariant), logN 4..11, default scale 20..55 bits (one prime per rescaling) and 65..100 bits (two primes per rescaling, arbitrary-precision encoder), chain depth, primes at 0.65..1.0 x the scale, #P, secret weight. kind 'prog' = random straight-line program (up to 18 (quick) / 24 (thorough) evaluator calls chosen adaptively so that the message always fits the modulus) over a pool of ciphertexts/plaintexts with equal and unequal scales, levels, degrees and slot counts; the other kinds enumerate one API family: scalar = {Add,Sub,Mul,MulThenAdd} x 9 scalar Go types x value classes x receivers; vector = same x 4 vector types x lengths x sparse packings; scale = Rescale/RescaleTo (threshold boundaries)/SetScale (ratios)/ScaleUp/DropLevel at every level; addsub = Add/Sub with scale ratios {1, integer, prime, non-integer, 1+eps} x operand order x receiver aliasing x degree; mta = MulThenAdd/MulRelinThenAdd accumulator scale/level/degree relations. EVERY evaluator call is judged (scale exact to 2^-100, level, degree, dimensions, decrypted value within the one-step worst-case budget). distinct key = (op, operand kind and value class, receiver mode, scale relation, level relation, degrees, slot class, family, scale decade) and, for programs, the normalised program text; non-trivial = anything but a standard-ring PREC64 ciphertext-ciphertext call with equal scales and levels into a fresh full-slot receiver (i.e. other operand kind, unequal scale or level, aliased or dirty receiver, degree 2, sparse packing, conjugate-invariant ring, PREC128, error outcome) or a program of multiplicative depth >= 2.",
 		Cases: cases,
 		Assumptions: []string{
-			"oracle arithmetic (math/big, 256-bit) and rlwe.Decryptor / ckks.Encoder.Decode at 200-bit precision used to observe slot values are correct (Decode is judged by C07, ring kernels by C01)",
+			"oracle arithmetic is math/big at 256 bits: slot values are observed with rlwe.Decryptor + lattigo's INTT (judged by C01) followed by an independent CRT lift and an independent big-float DFT over all N/2 (N) slots; the library decoder is only exercised as the object under test at the end of programs",
 			"worst-case noise constants: |e|<=floor(6 sigma)+1, rounding <=1.5 per component and rescaling, key-switch digits <= (a+1)*Q_digit, mod-down error <= #P+2, |tau(s)| measured from the actual secret, canonical embedding norm <= N (2N conjugate-invariant) * coefficient norm, FFT error <= 64*n*2^-prec*|v|",
 			"scalars are read at EncodingPrecision bits (bignum.ToComplex), vector operands must fit op0's slot count, non-integer scale ratios in Add/Sub are modelled as the code documents (multiplication by floor(ratio))",
 			"a budget that exceeds 2^-6*max(|m|,1) is counted as weak (counter weak_budget_checks): such a check still bounds gross errors only",
@@ -312,27 +311,10 @@ func runProg(c *eng.Ctx, cfg pcfg, steps int) {
 			s.pool = append(s.pool, e)
 		}
 	}
-	c.Sample(map[string]any{"kind": "prog", "cfg": cfg.id(), "logSlots": ls0})
 	kinds := map[string]bool{}
 	maxDepth := 0
 	for step := 0; step < steps && !s.dead; step++ {
 		s.step(kinds)
-		if os.Getenv("C06_DEBUG") != "" {
-			for i, e := range s.pool {
-				var d vec
-				if e.ct != nil {
-					d = s.decodeFull(e.ct)
-				} else {
-					d = s.decodeFullPt(e.pt)
-				}
-				err, at := maxDiff(d, e.want)
-				flag := ""
-				if err > e.E*1.001+1e-300 {
-					flag = "  <<<<<< CORRUPTED"
-				}
-				fmt.Fprintf(os.Stderr, "step %d %s pool[%d] %s err=2^%.2f E=2^%.2f at %d%s\n", step, s.prog[len(s.prog)-1], i, s.nameOf(e), math.Log2(err), math.Log2(e.E), at, flag)
-			}
-		}
 		// keep the pool small: drop the lowest-level ciphertexts first
 		for len(s.pool) > 8 {
 			worst, wi := 1<<30, -1
@@ -364,6 +346,7 @@ func runProg(c *eng.Ctx, cfg pcfg, steps int) {
 	if maxDepth >= 2 {
 		c.Count("programs_depth_ge2", 1)
 	}
+	c.Sample(map[string]any{"kind": "prog", "cfg": cfg.id(), "logSlots": ls0, "depth": maxDepth, "program": s.prog})
 	c.Max("max_program_depth", int64(maxDepth))
 	c.Count("program_calls", int64(len(s.prog)))
 }
@@ -626,7 +609,6 @@ func runDirected(c *eng.Ctx, cfg pcfg, kind string) {
 	case "mta":
 		s.dirMTA()
 	}
-	c.Count("directed_calls", int64(len(s.prog)))
 }
 
 // base returns a fresh ciphertext for one directed evaluation; the pool is reset so that receivers
@@ -657,9 +639,10 @@ func (s *st) randLevel(minL int) int {
 }
 
 // minLogSlots: a single slot cannot be encoded in the conjugate-invariant ring of the pinned tree
-// (triaged, probed once per directed case by probeCI1Slot), so the workloads start at 2 slots there.
+// (triaged; reported once per "vector" case by probeCI1Slot). build() tests it quietly: while the
+// defect is present the workloads start at 2 slots there, once it is repaired they start at 1.
 func (s *st) minLogSlots() int {
-	if s.cfg.CI {
+	if s.cfg.CI && !s.ci1ok {
 		return 1
 	}
 	return 0
@@ -862,12 +845,12 @@ func (s *st) dirScale() {
 		if a := mkProd(); a != nil {
 			after := q128(a.scale(), s.qf[lvl])
 			for i, ms := range []*big.Float{
-				s.defScale, // the common call
-				fmul(fB(after), fF(2)),                           // exactly on the boundary: rescales
-				fmul(fB(after), fF(2*(1+math.Ldexp(1, -40)))),    // just above: must not rescale
-				fmul(fB(after), fF(2*(1-math.Ldexp(1, -40)))),    // just below
+				s.defScale,             // the common call
+				fmul(fB(after), fF(2)), // exactly on the boundary: rescales
+				fmul(fB(after), fF(2*(1+math.Ldexp(1, -40)))),           // just above: must not rescale
+				fmul(fB(after), fF(2*(1-math.Ldexp(1, -40)))),           // just below
 				fquo(s.defScale, fF(float64(uint64(1)<<uint(r.N(12))))), // small target: several rescalings
-				fmul(a.scale(), fF(4)),                           // nothing to do
+				fmul(a.scale(), fF(4)),                                  // nothing to do
 			} {
 				if b := mkProd(); b != nil {
 					s.rescaleTo(b, ms, eng.Pick(r, "fresh", "op0", "garbage"), fmt.Sprint("thr", i))
